@@ -15,6 +15,8 @@
                     c<k> constant | i<k> input k | q<k> call node k
                     U <e> <e> union | N <e> <e> intersection | + <e> <e>  (a + b) % 4
                     ? i<k> <e> <e>   if input k is odd then first else second
+                    ? <c> <e> c0     gate (<c> not an input): if the value of <c> is odd then <e>
+                                     (evaluated only then) else 0
     input <i> <v> <d>             initial value / durability (0..2) of input i        -> `ok`
                                   (only before the first get / set / synth of the case)
     get <q>                       request node q  -> `v=<value> ev=<events>` | `panic:<class> ev=<events>`
@@ -67,12 +69,14 @@ def parseExpr (n ni : Nat) : Nat → List String → Option (Expr × List String
     else if t = "N" then bin .inter ts
     else if t = "+" then bin .add ts
     else if t = "?" then
-      match ts with
-      | c :: rest =>
-        match tagged c with
-        | some ('i', k) => if k < ni then bin (.ite k) rest else none
-        | _ => none
-      | [] => none
+      -- `? i<k> a b` branches on an input; `? <e> a c0` with any other condition is a gate
+      match parseExpr n ni fuel ts with
+      | some (.input k, rest) => bin (.ite k) rest
+      | some (c, rest) => do
+        let (a, r1) ← parseExpr n ni fuel rest
+        let (b, r2) ← parseExpr n ni fuel r1
+        if b == .const 0 then some (.gate c a, r2) else none
+      | none => none
     else match tagged t with
       | some ('c', k) => some (.const k, ts)
       | some ('i', k) => if k < ni then some (.input k, ts) else none
